@@ -28,6 +28,7 @@ package node
 //@   ensures[blank-value] result0 != nil && acceptsBlank(trimspace(s)) ==> deref(result0.t) == "/_" && deref(result0.id) == str_substr(trimspace(s), 2, len(trimspace(s)) - 2)
 
 //@ func (n *Node) String
+//@   heapfun
 //@   requires wfNode(n)
 //@   ensures[text] result == nodeText(deref(n.t), deref(n.id))
 
